@@ -88,6 +88,16 @@ theorem encodeToken_ne_nil (hd : DecOK dec) {s : Str} (h : s ≠ []) : encodeTok
   rw [he] at this
   exact h (by simpa [decodeToken, decodeTokenF] using this.symm)
 
+theorem applyTable_nil : ∀ tbl : EscTable, applyTable tbl [] = [] := by
+  intro tbl
+  unfold applyTable
+  induction tbl with
+  | nil => rfl
+  | cons pe tbl ih => simp only [List.foldl_cons, replaceAll_nil]; exact ih
+
+theorem encodeToken_nil (tbl : EscTable) : encodeToken tbl [] = [] := by
+  rw [encodeToken_eq_quote, applyTable_nil]; rfl
+
 /-- the text of a parameter followed by `rest'` does not begin with a dash, unless the parameter is
 the empty string and `rest'` does -/
 theorem param_noDash (hd : DecOK dec) (x : Param) (rest' : Str)
@@ -100,9 +110,7 @@ theorem param_noDash (hd : DecOK dec) (x : Param) (rest' : Str)
     cases hs : s with
     | nil =>
       subst hs
-      have : encodeToken T [] = [] := by
-        simp [encodeToken, applyTable, replaceAll_nil, quote_nil, T]
-        sorry
+      have : encodeToken T [] = [] := encodeToken_nil T
       rw [this]; exact h pos rfl
     | cons a b =>
       have hne := encodeToken_ne_nil hd (s := a :: b) (by simp)
@@ -112,5 +120,100 @@ theorem param_noDash (hd : DecOK dec) (x : Param) (rest' : Str)
         have : tokSafe c = true :=
           encodeToken_safe' T Inst.escapeTable_sepCovered (a :: b) c (by rw [he]; simp)
         exact stopAt_dash_of_tokSafe _ this
+
+
+theorem resParamsOK_tail {x : Param} {ps : List Param} (h : resParamsOK (x :: ps) = true) :
+    resParamsOK ps = true := by
+  cases ps with
+  | nil => rfl
+  | cons y ys =>
+    cases x with
+    | str s pos => simp only [resParamsOK, Bool.and_eq_true] at h; exact h.2
+    | link q pos => simpa only [resParamsOK] using h
+
+theorem resParamsOK_empty {pos : Nat} {ps : List Param} (h : resParamsOK (.str [] pos :: ps) = true) :
+    ps = [] := by
+  cases ps with
+  | nil => rfl
+  | cons y ys => simp [resParamsOK] at h
+
+theorem pieceStop_dashParams (ps : List Param) {rest : Str} (hs : dpStop rest = true) :
+    pieceStop (encodeDashParams T ps ++ rest) = true := by
+  cases ps with
+  | nil => simpa [encodeDashParams] using pieceStop_of_dpStop hs
+  | cons y ys => simp [encodeDashParams, pieceStop]
+
+/-- S2: `ZeroOrMore("-" + parameter)`; `wide` = the `Word("-")` separator of resource headers -/
+theorem dashParams_spec (hd : DecOK dec) {d : Nat} (ih : LinkIH dec d) (wide : Bool) :
+    ∀ (ps : List Param), depthParams ps ≤ d → wfParams ps = true →
+      (wide = true → resParamsOK ps = true) →
+      ∀ (rest : Str), dpStop rest = true → ∀ (p n : Nat), NoWs (encodeDashParams T ps ++ rest) →
+      8 * (encodeDashParams T ps).length + 2 ≤ n →
+      ∃ ps' p', parseDashParams dec wide n ⟨encodeDashParams T ps ++ rest, p⟩ = (ps', ⟨rest, p'⟩) ∧
+        eraseParams ps' = eraseParams ps := by
+  intro ps
+  induction ps with
+  | nil =>
+    intro _ _ _ rest hs p n hws _
+    simp only [encodeDashParams, List.nil_append] at hws ⊢
+    refine ⟨[], p, ?_, rfl⟩
+    cases n with
+    | zero => simp [parseDashParams]
+    | succ n =>
+      cases wide with
+      | true => simp [parseDashParams, parseDashes_none hws (dpStop_not_dash hs)]
+      | false => simp [parseDashParams, lit_dash_none hws (dpStop_not_dash hs)]
+  | cons x ps ihps =>
+    intro hdep hwf hres rest hs p n hws hn
+    simp only [depthParams, Nat.max_le] at hdep
+    simp only [wfParams, Bool.and_eq_true] at hwf
+    simp only [encodeDashParams, List.length_cons, List.length_append] at hn
+    have e : encodeDashParams T (x :: ps) ++ rest = '-' :: (x.encode T ++ (encodeDashParams T ps ++ rest)) := by
+      simp [encodeDashParams]
+    rw [e] at hws ⊢
+    cases n with
+    | zero => omega
+    | succ n =>
+      have hsep : (if wide = true then parseDashes ⟨'-' :: (x.encode T ++ (encodeDashParams T ps ++ rest)), p⟩
+          else lit ['-'] ⟨'-' :: (x.encode T ++ (encodeDashParams T ps ++ rest)), p⟩) =
+          some ⟨x.encode T ++ (encodeDashParams T ps ++ rest), p + 1⟩ := by
+        cases wide with
+        | false => simpa using lit_cons hws
+        | true =>
+          simp only [↓reduceIte]
+          apply parseDashes_cons hws
+          apply param_noDash hd
+          intro pos hx
+          subst hx
+          have := resParamsOK_empty (hres rfl)
+          subst this
+          simpa [encodeDashParams] using dpStop_not_dash hs
+      obtain ⟨x', p1, hx, hxe⟩ := param_spec hd ih x hdep.1 hwf.1 (encodeDashParams T ps ++ rest)
+        (pieceStop_dashParams ps hs) hws.tail (p + 1) n (by omega)
+      obtain ⟨ps', p2, hps, hpe⟩ := ihps hdep.2 hwf.2 (fun hw => resParamsOK_tail (hres hw)) rest hs p1 n
+        hws.tail.right (by omega)
+      refine ⟨x' :: ps', p2, ?_, by simp [eraseParams, hxe, hpe]⟩
+      simp only [parseDashParams, hsep, hx, hps]
+
+/-- S2: an action -/
+theorem action_spec (hd : DecOK dec) {d : Nat} (ih : LinkIH dec d) (a : Action) (hdep : a.depth ≤ d)
+    (hwf : wfAction a = true) (rest : Str) (hs : dpStop rest = true) (p n : Nat)
+    (hws : NoWs (a.encode T ++ rest)) (hn : 8 * (a.encode T).length + 3 ≤ n) :
+    ∃ a' p', parseAction dec n ⟨a.encode T ++ rest, p⟩ = some (a', ⟨rest, p'⟩) ∧ a'.erase = a.erase := by
+  obtain ⟨name, ps, pos⟩ := a
+  simp only [Action.depth] at hdep
+  simp only [wfAction, Bool.and_eq_true] at hwf
+  simp only [Action.encode, List.length_append] at hn
+  have e : (Action.mk name ps pos).encode T ++ rest = name ++ (encodeDashParams T ps ++ rest) := by
+    simp [Action.encode]
+  rw [e] at hws ⊢
+  cases n with
+  | zero => omega
+  | succ n =>
+    have hid := re_identifier (p := p) hwf.1 (pieceStop_dashParams ps hs) hws
+    obtain ⟨ps', p2, hps, hpe⟩ := dashParams_spec hd ih false ps hdep hwf.2 (by simp) rest hs
+      (p + name.length) n hws.right (by omega)
+    refine ⟨.mk name ps' p, p2, ?_, by simp [Action.erase, hpe]⟩
+    simp only [parseAction, skipWs_noWs hws, hid, hps]
 
 end Liquer
